@@ -25,6 +25,8 @@ pub struct Scenario {
     /// build a fresh application for every execution (state inside the application, e.g. a prediction cache, starts cold each time)
     #[allow(dead_code)]
     pub fresh_app: bool,
+    /// one Combined sink of two files (JSON lines first, CSV second); `csv` is ignored
+    pub combined: bool,
 }
 
 pub fn query_alphabet() -> Vec<Value> {
@@ -122,6 +124,8 @@ pub fn alone(app: &CompassApp, batches: &[Vec<Value>]) -> BTreeMap<String, Value
 pub struct Outcome {
     pub exec: Execution,
     pub file: String,
+    /// second file of a combined sink
+    pub file2: String,
 }
 
 /// one execution of a scenario under a choice prefix
@@ -129,33 +133,55 @@ pub fn run_scenario(ex: &Explorer, fx: &Fixture, sc: &Scenario, prefix: &[usize]
     let _ = shared_cache_labels;
     let path = fx.scratch.path.join(format!("out_{}.txt", sc.name));
     let _ = std::fs::remove_file(&path);
-    let pol = policy(path.to_str().unwrap(), sc.csv, sc.flush_rate)?;
+    let path2 = fx.scratch.path.join(format!("out2_{}.txt", sc.name));
+    let _ = std::fs::remove_file(&path2);
+    let pol = if sc.combined {
+        let a = serde_json::to_value(policy(path.to_str().unwrap(), false, sc.flush_rate)?).map_err(|e| e.to_string())?;
+        let b = serde_json::to_value(policy(path2.to_str().unwrap(), true, sc.flush_rate)?).map_err(|e| e.to_string())?;
+        serde_json::from_value(json!({"type": "combined", "policies": [a, b]})).map_err(|e| e.to_string())?
+    } else {
+        policy(path.to_str().unwrap(), sc.csv, sc.flush_rate)?
+    };
     let sink = Arc::new(pol.build().map_err(|e| e.to_string())?);
     let n_total: usize = sc.batches.iter().map(|b| b.len()).sum();
     let bar = Bar::builder().total(n_total).disable(true).build().map_err(|e| e.to_string())?;
     let pb = Arc::new(VMutex::new(bar));
-    // names of the shared primitives for labels
-    let (file_lock, counter_lock, file_id) = match sink.as_ref() {
-        ResponseSink::File { file, iterations, .. } => {
-            let fid = {
-                let g = file.lock().map_err(|_| "poisoned")?;
-                (&*g) as *const _ as *const u8 as usize
-            };
-            (Arc::as_ptr(file) as *const u8 as usize, Arc::as_ptr(iterations) as *const u8 as usize, fid)
+    // names of the shared primitives for labels: (file lock, counter lock, file) per file sink
+    fn sink_ids(s: &ResponseSink, out: &mut Vec<(usize, usize, usize)>) -> Result<(), String> {
+        match s {
+            ResponseSink::File { file, iterations, .. } => {
+                let fid = {
+                    let g = file.lock().map_err(|_| "poisoned")?;
+                    (&*g) as *const _ as *const u8 as usize
+                };
+                out.push((Arc::as_ptr(file) as *const u8 as usize, Arc::as_ptr(iterations) as *const u8 as usize, fid));
+            }
+            ResponseSink::Combined(v) => {
+                for x in v.iter() {
+                    sink_ids(x, out)?;
+                }
+            }
+            ResponseSink::None => {}
         }
-        _ => (0, 0, 0),
-    };
+        Ok(())
+    }
+    let mut ids: Vec<(usize, usize, usize)> = vec![];
+    sink_ids(sink.as_ref(), &mut ids)?;
     let pb_lock = Arc::as_ptr(&pb) as *const u8 as usize;
     let label = move |e: &Ev| -> String {
         let name = |id: usize| {
-            if id == file_lock {
-                "file_lock".to_string()
-            } else if id == counter_lock {
-                "counter_lock".to_string()
-            } else if id == pb_lock {
+            for (i, (fl, cl, f)) in ids.iter().enumerate() {
+                let sfx = if i == 0 { String::new() } else { format!("#{}", i) };
+                if id == *fl {
+                    return format!("file_lock{}", sfx);
+                } else if id == *cl {
+                    return format!("counter_lock{}", sfx);
+                } else if id == *f {
+                    return format!("file{}", sfx);
+                }
+            }
+            if id == pb_lock {
                 "progress_lock".to_string()
-            } else if id == file_id {
-                "file".to_string()
             } else {
                 "other".to_string()
             }
@@ -191,7 +217,8 @@ pub fn run_scenario(ex: &Explorer, fx: &Fixture, sc: &Scenario, prefix: &[usize]
     }
     let exec = ex.run_once(prefix, expect, tasks, &label);
     let file = std::fs::read_to_string(&path).unwrap_or_default();
-    Ok(Outcome { exec, file })
+    let file2 = std::fs::read_to_string(&path2).unwrap_or_default();
+    Ok(Outcome { exec, file, file2 })
 }
 
 /// judges one execution; returns failed clauses and the order in which the qids appear in the file
@@ -222,15 +249,27 @@ pub fn judge(sc: &Scenario, alone: &BTreeMap<String, Value>, out: &Outcome) -> (
             other => bad.push(("task_completes", format!("task {}: {:?}", ti, other))),
         }
     }
+    if sc.combined {
+        let o1 = judge_file(sc, false, alone, &out.file, &returned, &mut bad);
+        let o2 = judge_file(sc, true, alone, &out.file2, &returned, &mut bad);
+        (bad, format!("{}|{}", o1, o2))
+    } else {
+        let o = judge_file(sc, sc.csv, alone, &out.file, &returned, &mut bad);
+        (bad, o)
+    }
+}
+
+/// the file oracle for one output file in JSON-lines or CSV form; returns the order of qids in the file
+fn judge_file(sc: &Scenario, csv: bool, alone: &BTreeMap<String, Value>, file: &str, returned: &[Value], bad: &mut Vec<(&'static str, String)>) -> String {
     let n_expected: usize = sc.batches.iter().map(|b| b.len()).sum();
-    let lines: Vec<&str> = out.file.split('\n').collect();
+    let lines: Vec<&str> = file.split('\n').collect();
     // a complete file ends with a newline: the last split element is empty
     if lines.last().map_or(false, |l| !l.is_empty()) {
         bad.push(("last_record_is_terminated", format!("file ends with {:?}", lines.last())));
     }
     let lines: Vec<&str> = lines.into_iter().filter(|l| !l.is_empty()).collect();
     let mut order = vec![];
-    if sc.csv {
+    if csv {
         let fmt = csv_format();
         if lines.first().copied() != Some(ref_csv_header(&fmt).as_str()) {
             bad.push(("single_header_first", format!("first line {:?}", lines.first())));
@@ -287,8 +326,8 @@ pub fn judge(sc: &Scenario, alone: &BTreeMap<String, Value>, out: &Outcome) -> (
             s
         };
         if sc.keep_responses {
-            if canon(&parsed) != canon(&returned) {
-                bad.push(("records_are_the_responses_produced", format!("file {:?} returned {:?}", canon(&parsed.iter().map(project).collect()), canon(&returned.iter().map(project).collect()))));
+            if canon(&parsed) != canon(&returned.to_vec()) {
+                bad.push(("records_are_the_responses_produced", format!("file {:?} returned {:?}", canon(&parsed.iter().map(project).collect()), canon(&returned.iter().map(project).collect::<Vec<_>>()))));
             }
         } else {
             let want: Vec<Value> = sc.batches.iter().flatten().map(|q| alone.get(q["qid"].as_str().unwrap_or("")).cloned().unwrap_or(Value::Null)).collect();
@@ -297,7 +336,7 @@ pub fn judge(sc: &Scenario, alone: &BTreeMap<String, Value>, out: &Outcome) -> (
             }
         }
     }
-    (bad, order.join(">"))
+    order.join(">")
 }
 
 pub fn scenarios(tier: Tier) -> Vec<(Scenario, Option<usize>)> {
@@ -307,17 +346,20 @@ pub fn scenarios(tier: Tier) -> Vec<(Scenario, Option<usize>)> {
     // two tasks x two queries: explored completely (no preemption bound)
     for (csv, flush, keep) in [(false, 1, true), (true, 2, true), (false, 2, false), (true, 1, false)] {
         v.push((
-            Scenario { name: format!("2x2_{}_{}_{}", if csv { "csv" } else { "jsonl" }, flush, if keep { "keep" } else { "discard" }), batches: vec![vec![q(0, "a0"), q(2, "a1")], vec![q(1, "b0"), q(4, "b1")]], csv, flush_rate: flush, keep_responses: keep, fresh_app: false },
+            Scenario { name: format!("2x2_{}_{}_{}", if csv { "csv" } else { "jsonl" }, flush, if keep { "keep" } else { "discard" }), batches: vec![vec![q(0, "a0"), q(2, "a1")], vec![q(1, "b0"), q(4, "b1")]], csv, flush_rate: flush, keep_responses: keep, fresh_app: false, combined: false },
             None,
         ));
     }
+    // one Combined sink writing a JSON-lines file and a CSV file: each response takes both pairs of locks one after the other
+    v.push((Scenario { name: "2x2_combined_1_keep".into(), batches: vec![vec![q(0, "a0"), q(2, "a1")], vec![q(1, "b0"), q(4, "b1")]], csv: false, flush_rate: 1, keep_responses: true, fresh_app: false, combined: true }, Some(tier.pick(2, 4))));
+    v.push((Scenario { name: "2x1_combined_2_discard".into(), batches: vec![vec![q(0, "a0")], vec![q(1, "b0")]], csv: false, flush_rate: 2, keep_responses: false, fresh_app: false, combined: true }, tier.pick(Some(3), None)));
     // three tasks: preemption bounded
     let b3 = tier.pick(2, 3);
-    v.push((Scenario { name: "3x1_jsonl".into(), batches: vec![vec![q(0, "a0")], vec![q(1, "b0")], vec![q(2, "c0")]], csv: false, flush_rate: 1, keep_responses: true, fresh_app: false }, Some(tier.pick(3, 5))));
-    v.push((Scenario { name: "3x2_csv".into(), batches: vec![vec![q(0, "a0"), q(3, "a1")], vec![q(1, "b0"), q(2, "b1")], vec![q(5, "c0"), q(4, "c1")]], csv: true, flush_rate: 2, keep_responses: true, fresh_app: false }, Some(b3)));
+    v.push((Scenario { name: "3x1_jsonl".into(), batches: vec![vec![q(0, "a0")], vec![q(1, "b0")], vec![q(2, "c0")]], csv: false, flush_rate: 1, keep_responses: true, fresh_app: false, combined: false }, Some(tier.pick(3, 5))));
+    v.push((Scenario { name: "3x2_csv".into(), batches: vec![vec![q(0, "a0"), q(3, "a1")], vec![q(1, "b0"), q(2, "b1")], vec![q(5, "c0"), q(4, "c1")]], csv: true, flush_rate: 2, keep_responses: true, fresh_app: false, combined: false }, Some(b3)));
     if tier == Tier::Thorough {
-        v.push((Scenario { name: "3x2_jsonl_discard".into(), batches: vec![vec![q(0, "a0"), q(3, "a1")], vec![q(1, "b0"), q(2, "b1")], vec![q(5, "c0"), q(4, "c1")]], csv: false, flush_rate: 3, keep_responses: false, fresh_app: false }, Some(3)));
-        v.push((Scenario { name: "2x3_jsonl".into(), batches: vec![vec![q(0, "a0"), q(2, "a1"), q(3, "a2")], vec![q(1, "b0"), q(4, "b1"), q(5, "b2")]], csv: false, flush_rate: 2, keep_responses: true, fresh_app: false }, Some(4)));
+        v.push((Scenario { name: "3x2_jsonl_discard".into(), batches: vec![vec![q(0, "a0"), q(3, "a1")], vec![q(1, "b0"), q(2, "b1")], vec![q(5, "c0"), q(4, "c1")]], csv: false, flush_rate: 3, keep_responses: false, fresh_app: false, combined: false }, Some(3)));
+        v.push((Scenario { name: "2x3_jsonl".into(), batches: vec![vec![q(0, "a0"), q(2, "a1"), q(3, "a2")], vec![q(1, "b0"), q(4, "b1"), q(5, "b2")]], csv: false, flush_rate: 2, keep_responses: true, fresh_app: false, combined: false }, Some(4)));
     }
     v
 }
